@@ -363,7 +363,9 @@ pub fn gen_build_args(r: &mut Rng, kind: &str) -> String {
 pub fn gen_adds(r: &mut Rng) -> String {
     let lim = Limits { max_depth: 1, boundary: false };
     let n = r.below(6);
-    let names = ["job-uri", "job-id", "printer-uri", "attributes-charset", "attributes-natural-language", "requesting-user-name", "x", "document-format", "a"];
+    let names = ["job-uri", "job-id", "printer-uri", "attributes-charset", "attributes-natural-language", "requesting-user-name", "x", "document-format", "a",
+        // names that extend the specially ordered ones, or that they extend
+        "printer-uri-supported", "job-ids", "job-uri-x", "attributes-charset-supported", "attributes-natural-language-x", "job-id-attribute", "job", "printer", "attributes"];
     let ops: Vec<String> = (0..n)
         .map(|_| {
             let tag = *r.pick(&[1u8, 1, 1, 2, 4]);
